@@ -634,7 +634,7 @@ Definition in_scope (r : route) : bool :=
   && forallb (fun a => match la_alias a with ANonStr => false | _ => true end) (r_attrs r)
   && forallb (fun a => match la_kind a with KRoute | KSecurity => negb (is_nil (la_value a)) | _ => true end) (r_attrs r)
   && nodupb (fnames r)
-  && forallb (fun p => negb (is_nil (fp_name p))) (r_params r)
+  && forallb (fun p => negb (is_blank (fp_name p))) (r_params r)
   && forallb (fun a => match find_param (la_value a) r with Some p => negb (is_ctx p) | None => true end) (param_attrs r).
 
 Definition has_brace (t : str) : bool := existsb (fun c => beqb c c_lb || beqb c c_rb) t.
